@@ -187,6 +187,9 @@ pub fn run_c10<K: KeyT, V: ValT>(spec: &RunSpec, thorough: bool) -> RunOutcome {
                 }
                 stop = true;
             } else {
+                if std::env::var("GSIM_DEBUG_FOREIGN").is_ok() {
+                    eprintln!("foreign: {} {:?} {} :: {:?}", a.class, a.family, a.detail, op);
+                }
                 out.foreign.push(a.class);
             }
         }
